@@ -189,3 +189,62 @@ Theorem C16_ap_lifted : forall cf fx fmt32 fmt64 t v,
 Proof. exact (@ValueDeAgreeAp3.C16_ap_lifted). Qed.
 Print Assumptions C16_ap_lifted.
 
+From SJ Require Import Base.Bytes Base.Utf8 Base.FloatB Gen.Tables
+  Model.Read Model.Str Model.Num Model.NumF32 Model.Value Model.De Model.Ignore Model.Ty Model.NumberM Model.DeTyped Model.ValueDe
+  Model.VdeAst Gen.VdeTables.
+From SJ Require Import Proofs.VdeSrc.
+Theorem C16_value_deserializer_is_source :
+  forall (cf : cfg) (fx : fenv) (name : bytes) (fuel : nat) (t : ty) (v : value),
+  de_value_owned (S fuel) cf fx t v =
+    seed_meaning VDE_SOURCE false cf fx name (de_value_owned fuel cf fx) (value_of_value cf fx) (key_meaning VDE_SOURCE cf CowOwned)
+      (enum_meaning VDE_SOURCE false cf fx name (de_value_owned fuel cf fx)) t v
+  /\ de_value_ref (S fuel) cf fx t v =
+    seed_meaning VDE_SOURCE true cf fx name (de_value_ref fuel cf fx) (value_of_value cf fx) (key_meaning VDE_SOURCE cf CowBorrowed)
+      (enum_meaning VDE_SOURCE true cf fx name (de_value_ref fuel cf fx)) t v.
+Proof. exact (@VdeSrc.value_deserializer_is_translated_source). Qed.
+Print Assumptions C16_value_deserializer_is_source.
+
+Theorem C16_from_value_is_source : forall (cf : cfg) (fx : fenv) (name : bytes) (t : ty) (v : value),
+  from_value_owned cf fx t v =
+    seed_meaning VDE_SOURCE false cf fx name (de_value_owned (ty_depth t) cf fx) (value_of_value cf fx) (key_meaning VDE_SOURCE cf CowOwned)
+      (enum_meaning VDE_SOURCE false cf fx name (de_value_owned (ty_depth t) cf fx)) t v
+  /\ from_value_ref cf fx t v =
+    seed_meaning VDE_SOURCE true cf fx name (de_value_ref (ty_depth t) cf fx) (value_of_value cf fx) (key_meaning VDE_SOURCE cf CowBorrowed)
+      (enum_meaning VDE_SOURCE true cf fx name (de_value_ref (ty_depth t) cf fx)) t v.
+Proof. exact (@VdeSrc.from_value_is_translated_source). Qed.
+Print Assumptions C16_from_value_is_source.
+
+Theorem C16_dispatch_is_source : forall (side ap : bool) (cf : cfg) (fx : fenv) (name : bytes) (A : Type) (V : visitor A) (m : vmethod) (v : value),
+  run_method VDE_SOURCE side ap false cf fx name V VDE_FUEL m v = dispatch side ap cf fx V m v.
+Proof. exact (@VdeSrc.dispatch_is_source). Qed.
+Print Assumptions C16_dispatch_is_source.
+
+Theorem C16_owned_ref_tables_agree : forall (ap : bool) (m : vmethod),
+  norm_method ap VDE_OWNED m = norm_method ap VDE_REF m /\ norm_method ap VDE_OWNED m <> NMissing.
+Proof. exact (@VdeSrc.owned_ref_tables_agree). Qed.
+Print Assumptions C16_owned_ref_tables_agree.
+
+Theorem C16_owned_ref_helpers_agree :
+  norm_helper VDE_VISIT_ARRAY = norm_helper VDE_VISIT_ARRAY_REF /\ norm_helper VDE_MAP_ANY = norm_helper VDE_MAP_ANY_REF
+  /\ h_leftover VDE_VISIT_ARRAY = LeftoverIsInvalidLength /\ h_leftover VDE_MAP_ANY = LeftoverIsInvalidLength
+  /\ VDE_MAP_ENUM = MapEnumSingleEntry EnumOwned /\ VDE_MAP_ENUM_REF = MapEnumSingleEntry EnumRef
+  /\ norm_variant VDE_VARIANT = norm_variant VDE_VARIANT_REF
+  /\ VDE_VARIANT_SEED = VariantSeedIntoDeserializer VariantOwned /\ VDE_VARIANT_REF_SEED = VariantSeedIntoDeserializer VariantRef
+  /\ norm_access_table VDE_SEQ_ACCESS = norm_access_table VDE_SEQ_ACCESS_REF
+  /\ norm_access_table VDE_MAP_ACCESS = norm_access_table VDE_MAP_ACCESS_REF
+  /\ lookup_access VDE_MAP_ACCESS a_next_key_seed = Some (NextKeyFromIter CowOwned)
+  /\ lookup_access VDE_MAP_ACCESS_REF a_next_key_seed = Some (NextKeyFromIter CowBorrowed).
+Proof. exact (@VdeSrc.owned_ref_helpers_agree). Qed.
+Print Assumptions C16_owned_ref_helpers_agree.
+
+Theorem C16_value_of_value_is_source : forall (side : bool) (cf : cfg) (fx : fenv) (name : bytes) (v : value),
+  value_of_value cf fx v =
+  run_method VDE_SOURCE side (arbitrary_precision cf) false cf fx name (value_visitor cf fx (value_of_value cf fx)) VDE_FUEL d_any v.
+Proof. exact (@VdeSrc.value_of_value_is_source). Qed.
+Print Assumptions C16_value_of_value_is_source.
+
+Theorem C16_value_key_is_source : forall (cf : cfg) (borrowed : bool) (k : kty) (key : bytes),
+  de_value_key cf borrowed k key = key_meaning VDE_SOURCE cf (cow_of borrowed) k key.
+Proof. exact (@VdeSrc.de_value_key_is_source). Qed.
+Print Assumptions C16_value_key_is_source.
+
